@@ -1,6 +1,7 @@
 import Zc.Proofs.Wire.Message
 import Zc.Proofs.Wire.Total
 import Zc.Props.C02
+import Zc.Proofs.NameTextWF
 /-! # C01 — wire codec round trip
 
 Every question and record handed to the message builder is recovered unchanged — name spelling,
@@ -280,5 +281,149 @@ which is what `str.encode('utf-8')` produces for every `str` without lone surrog
 satisfies `TextLabels` (`Utf8.decode_encode`, proved in `Proofs/Utf8RoundTrip.lean`; added by the C02 owner). -/
 theorem C01_text_of_str (m : Msg) (h : ∀ n ∈ msgNamesE m, ∀ l ∈ n, WFLabel l ∧ Utf8.IsText l) : TextLabels m :=
   names_text_of_str (msgNamesE m) (fun n hn l hl => ⟨(h n hn l hl).2, (h n hn l hl).1.2⟩)
+
+/-! ## text layer: names as `str` (work package TEXTGLUE)
+
+The theorems above carry a name as its list of labels.  The library is handed `str`s: `write_name` drops one
+trailing dot, `split('.')`s, UTF-8 encodes each piece, and keys its compression table by the text of each suffix;
+`DNSIncoming` decodes each label with `'replace'`, joins with dots and appends one.  `Zc.NameText` models exactly
+that (`Model/NameText.lean`; source statements pinned in `GenFacts/NameText.lean`), and this section states the
+round trip on the **strings**. -/
+section text_layer
+open Zc.NameText
+
+/-- **`'.'.join(s.split('.')) == s`** for every `str` -/
+theorem C01_join_split (s : Text) : joinDot (splitDot s) = s := joinDot_splitDot s
+
+/-- **`'.'.join(ls).split('.') == ls` iff `ls` is non-empty and no label contains a dot**: a dot inside an instance
+label is a label boundary as far as the text is concerned -/
+theorem C01_split_join_iff (ls : List Text) : splitDot (joinDot ls) = ls ↔ ls ≠ [] ∧ ∀ l ∈ ls, dot ∉ l :=
+  splitDot_joinDot_iff ls
+
+/-- **Text round trip of one name, for every `str`**: what `write_name` splits and encodes, `_read_name` decodes and
+joins back to the same string with exactly one trailing dot — whatever the string (empty labels, no trailing dot,
+dots anywhere, any non-ASCII text) -/
+theorem C01_name_text_roundtrip (s : Text) : textOfLabels (labelsOfText s) = canonical s := textOfLabels_labelsOfText s
+
+/-- **Compression-table key agreement** (the assumption under which `Wire.Encode` keys its names table by label
+lists): `write_name` run with the library's `str`-keyed `dict` — key = text of the stripped name and of each
+`'.'.join(labels[count:])`, offset = `start_size + len(name.encode()) - len(partial_name.encode())` — appends the same
+bytes, raises the same exception and leaves the same table (keys translated by the injective
+`k ↦ [p.encode() for p in k.split('.')]`, `keyLabels_injective`) as `Encode.writeName` on `labelsOfText name`. -/
+theorem C01_names_table_text_keys (size : Nat) (names : TNames) (name : Text) :
+    onTbl (writeNameText size names name) = writeName size (tblOf names) (labelsOfText name) :=
+  writeNameText_refines size names name
+
+/-- the text-level quantifier implies the label-level one -/
+theorem C01_text_name_wf {s : Text} (h : TextName s) : WFName (labelsOfText s) := h.wfName
+
+/-- … and such a name comes back spelled as given -/
+theorem C01_text_name_spelling {s : Text} (h : TextName s) : canonical s = s := h.canonical
+
+theorem msgNamesE_toE (m : TMsg) : ∀ n ∈ msgNamesE m.toE, ∃ s ∈ m.names, n = labelsOfText s := by
+  intro n hn
+  simp only [msgNamesE, TMsg.toE, TMsg.names, List.mem_append, List.mem_map, List.mem_flatMap, List.mem_cons] at hn ⊢
+  rcases hn with ⟨q, ⟨q', hq', rfl⟩, rfl⟩ | ⟨r, hr, hn⟩
+  · exact ⟨q'.name, Or.inl ⟨q', hq', rfl⟩, rfl⟩
+  · have hr' : ∃ r' ∈ m.answers.map (·.1) ++ m.authorities ++ m.additionals, r = r'.toE := by
+      simp only [List.mem_append, List.mem_map]
+      rcases hr with (⟨x, ⟨y, hy, rfl⟩, rfl⟩ | ⟨x, hx, rfl⟩) | ⟨x, hx, rfl⟩
+      · exact ⟨y.1, Or.inl (Or.inl ⟨y, hy, rfl⟩), rfl⟩
+      · exact ⟨x, Or.inl (Or.inr hx), rfl⟩
+      · exact ⟨x, Or.inr hx, rfl⟩
+    obtain ⟨r', hr'm, rfl⟩ := hr'
+    have hmem : ∃ s ∈ r'.name :: r'.rdata.names, n = labelsOfText s := by
+      rcases hn with rfl | hn
+      · exact ⟨r'.name, List.mem_cons_self, rfl⟩
+      · cases hrd : r'.rdata <;> simp only [TRecord.toE, hrd, TRData.toE, erdataNames, List.mem_singleton, List.not_mem_nil] at hn
+        all_goals (subst hn; exact ⟨_, List.mem_cons_of_mem _ (by simp [TRData.names]), rfl⟩)
+    obtain ⟨s, hs, rfl⟩ := hmem
+    refine ⟨s, Or.inr ⟨r', ?_, List.mem_cons.mp hs⟩, rfl⟩
+    simpa only [List.mem_append, List.mem_map] using hr'm
+
+/-- **Round trip on the strings.**  For every message whose names are text inside the quantifier (`WFTMsg`: each name a
+`str` with trailing dot, no empty label, labels ≤ 63 bytes of UTF-8, ≤ 253 characters, ≤ 255 octets — `TextName`; the rest
+as `WFMsg`) and whose entries each fit a datagram: every datagram the builder emits is accepted by the strict decoder
+and by the model of the library's decoder (a *valid* object carrying the same questions and records), and reading the
+names back as `_read_name` does — each label decoded, joined with dots, one dot appended — gives, per section, in order,
+exactly the entries handed to the builder with **the same strings** as names (owner names, PTR/CNAME targets, SRV
+targets, NSEC next names), the same type, class (+ unique bit when multicast), TTL and rdata.  Dots inside instance
+labels, mixed case and non-ASCII text are inside the quantifier; label boundaries are *not* recovered (they are not part
+of the string), the spelling is.  Composes `C01_roundtrip_lib`, `Utf8.decode_encode` and the split/join lemmas. -/
+theorem C01_roundtrip_text (m : TMsg) (hwf : WFTMsg m) (hfit : FitAll m.toE) (pks : List Bytes)
+    (h : packets m.toE = .ok pks) :
+    ∃ msgs : List WMsg, pks.map Strict.decode = msgs.map some ∧
+      msgs.flatMap (fun w => w.questions.map seenQuestion) = m.questions.map (TQuestion.expect m.multicast) ∧
+      msgs.flatMap (fun w => w.answers.map seenRecord) = m.answers.map (fun x => x.1.expect m.multicast x.2) ∧
+      msgs.flatMap (fun w => w.authorities.map seenRecord) = m.authorities.map (fun r => r.expect m.multicast 0) ∧
+      msgs.flatMap (fun w => w.additionals.map seenRecord) = m.additionals.map (fun r => r.expect m.multicast 0) ∧
+      (∀ s ∈ m.names, canonical s = s) ∧
+      ∀ p ∈ pks, ∃ w q, Strict.decode p = some w ∧ (DecodeLib.parse p).out = .ok q ∧ q.valid = true ∧
+        q.questions.map seenQuestion = w.questions.map seenQuestion ∧
+        q.records.map seenRecord = (DecodeSpec.flat w).map seenRecord := by
+  obtain ⟨htn, hwfm⟩ := hwf
+  have htext : TextLabels m.toE := by
+    apply C01_text_of_str
+    intro n hn l hl
+    obtain ⟨s, hs, rfl⟩ := msgNamesE_toE m n hn
+    exact ⟨(htn s hs).wfName.2.1 l hl, labelsOfText_isText s l hl⟩
+  obtain ⟨msgs, e, s1, s2, s3, s4, hlib⟩ := C01_roundtrip_lib m.toE hwfm hfit htext pks h
+  refine ⟨msgs, e, ?_, ?_, ?_, ?_, fun s hs => (htn s hs).canonical, ?_⟩
+  · rw [map_flatMap', s1]
+    simp only [onWireQuestions, TMsg.toE, List.map_map]
+    apply List.map_congr_left
+    intro q _
+    exact seenQuestion_onWire m.multicast q
+  · rw [map_flatMap', s2]
+    simp only [onWireAnswers, TMsg.toE, List.map_map]
+    apply List.map_congr_left
+    intro x _
+    exact seenRecord_onWire m.multicast x.1 x.2
+  · rw [map_flatMap', s3]
+    simp only [onWireAuthorities, TMsg.toE, List.map_map]
+    apply List.map_congr_left
+    intro r _
+    exact seenRecord_onWire m.multicast r 0
+  · rw [map_flatMap', s4]
+    simp only [onWireAdditionals, TMsg.toE, List.map_map]
+    apply List.map_congr_left
+    intro r _
+    exact seenRecord_onWire m.multicast r 0
+  · intro p hp
+    obtain ⟨w, q, h1, h2, h3⟩ := hlib p hp
+    simp only [DecodeSpec.agrees, Bool.and_eq_true, decide_eq_true_eq] at h3
+    obtain ⟨⟨⟨⟨⟨⟨⟨⟨hv, _⟩, _⟩, _⟩, _⟩, _⟩, _⟩, hq⟩, hr⟩ := h3
+    exact ⟨w, q, h1, h2, hv, by rw [hq], by rw [hr]⟩
+
+/-! ### non-vacuity of the text-level quantifier -/
+
+/-- `My.Service é日本._http._tcp.local.` — a dot inside the instance label, a space, non-ASCII text — is inside -/
+def exTextName : Text := "My.Service é日本._http._tcp.local.".toList
+def exTextType : Text := "_http._tcp.local.".toList
+
+example : TextName exTextName ∧ TextName exTextType := by decide
+/-- … `write_name` writes it as five labels (the dot inside the instance label `My.Service é日本` is a boundary) … -/
+example : (labelsOfText exTextName).map List.length = [2, 16, 5, 4, 5] := by decide
+/-- … and the string comes back -/
+example : textOfLabels (labelsOfText exTextName) = exTextName := by decide
+
+def exTextMsg : TMsg :=
+  { flags := 0x8400, id := 0, multicast := true, questions := [⟨exTextType, 12, 1, false⟩],
+    answers := [(⟨exTextType, 12, 1, false, 4500, 0, .ptr exTextName⟩, 0)], authorities := [],
+    additionals := [⟨exTextName, 33, 1, true, 120, 0, .srv 0 0 80 "é.local.".toList⟩] }
+
+example : WFTMsg exTextMsg := ⟨by decide, ⟨by decide, by decide, by decide, by decide⟩⟩
+example : FitAll exTextMsg.toE := ⟨by decide, by decide, by decide, by decide⟩
+/-- the datagram exists, compresses (the SRV owner is a pointer to the PTR's rdata) and both decoders return the strings -/
+example : (packets exTextMsg.toE).toOption.map (fun pks => pks.map (fun p =>
+    ((Strict.decode p).map (fun w => (w.answers.map seenRecord, w.additionals.map seenRecord))) ==
+      some ([(⟨exTextType, 12, 1, false, 4500, 0, .ptr exTextName⟩ : TRecord).expect true 0],
+            [(⟨exTextName, 33, 1, true, 120, 0, .srv 0 0 80 "é.local.".toList⟩ : TRecord).expect true 0]))) = some [true] := by
+  decide +kernel
+
+/-- names outside the text-level quantifier: no trailing dot, an empty label, the root, a 64-byte label, 254 characters -/
+example : ¬ TextName "a.local".toList ∧ ¬ TextName "a..local.".toList ∧ ¬ TextName ".".toList ∧ ¬ TextName [] := by decide
+
+end text_layer
 
 end Zc
